@@ -23,7 +23,7 @@ import (
 // runners: it routes keyed events by the reference key-group arithmetic and
 // broadcasts watermarks and barriers to every operator.
 type HOp struct {
-	Kind   string // event | wm | flush | checkpoint | rescale | probe
+	Kind   string // event | wm | flush | checkpoint | rescale | probe | complete (the sender's source is exhausted: SourceComplete)
 	Sender int
 	Key    int
 	Muts   []Mut
@@ -52,6 +52,7 @@ type HStats struct {
 	FiredAfterRestore, PendingAtRestore              int
 	WMBatches, MinChanges                            int
 	Checkpoints                                      int
+	Completed                                        int // upstream runners that reported their source exhausted
 }
 
 type hrun struct {
@@ -71,6 +72,18 @@ type hrun struct {
 	lastMin string
 	setTs   map[string]int // how often each (key,ts) was registered
 	foreign bool           // the current operators' tables may hold keys of other ranges
+	done    map[string]bool // upstream runners that sent SourceComplete in this deployment
+}
+
+// activeSender maps a drawn sender index to a runner that still reads: a runner
+// whose source is exhausted sends no further records.
+func (r *hrun) activeSender(i int) string {
+	for d := 0; d < len(r.senders); d++ {
+		if s := r.senders[(i+d)%len(r.senders)]; !r.done[s] {
+			return s
+		}
+	}
+	return r.senders[i%len(r.senders)]
 }
 
 type fakeSR struct {
@@ -171,6 +184,7 @@ func (r *hrun) deploy(opIDs []string, ckpt *snapshotpb.JobCheckpoint) error {
 	}
 	r.wms = map[string]int64{}
 	r.anyWM = false
+	r.done = map[string]bool{}
 	return nil
 }
 
@@ -228,7 +242,7 @@ func ExecHistory(p History, c *hx.Case) (st HStats, err error) {
 		case "event":
 			r.evID++
 			k := r.keys[o.Key%len(r.keys)]
-			s := r.senders[o.Sender%len(r.senders)]
+			s := r.activeSender(o.Sender)
 			for _, ts := range o.Timers {
 				r.setTs[timerLabel(k, ts)]++
 				if r.setTs[timerLabel(k, ts)] >= 3 {
@@ -241,6 +255,13 @@ func ExecHistory(p History, c *hx.Case) (st HStats, err error) {
 		case "wm":
 			s := r.senders[o.Sender%len(r.senders)]
 			wm := max(o.WM, r.wms[s]) // a runner's watermark never decreases
+			if r.done[s] {
+				// an exhausted runner reads nothing new: its ticker repeats its last watermark
+				if _, reported := r.wms[s]; !reported {
+					break
+				}
+				wm = r.wms[s]
+			}
 			before := r.minSender()
 			r.wms[s] = wm
 			r.anyWM = true
@@ -250,6 +271,24 @@ func ExecHistory(p History, c *hx.Case) (st HStats, err error) {
 			for _, op := range r.ops {
 				if err := op.Send(s, Watermark(wm)); err != nil {
 					return r.st, hx.Errf("step %d: watermark: %v", step, err)
+				}
+			}
+		case "complete":
+			s := r.senders[o.Sender%len(r.senders)]
+			left := 0
+			for _, x := range r.senders {
+				if !r.done[x] && x != s {
+					left++
+				}
+			}
+			if r.done[s] || left == 0 {
+				break // the last reading runner stays: an operator without active upstreams stops
+			}
+			r.done[s] = true
+			r.st.Completed++
+			for _, op := range r.ops {
+				if err := op.Send(s, &workerpb.Event{Event: &workerpb.Event_SourceComplete{SourceComplete: &workerpb.SourceCompleteEvent{}}}); err != nil {
+					return r.st, hx.Errf("step %d: source complete: %v", step, err)
 				}
 			}
 		case "flush":
